@@ -180,9 +180,116 @@ pub fn random(args: &Args) -> i32 {
     0
 }
 
-pub fn replay(_args: &Args) -> i32 {
-    eprintln!("replay: not built yet");
-    2
+fn key_of(v: &Value) -> Key {
+    (
+        v[0].as_str().unwrap_or("nil").to_string(),
+        v[1].as_u64().unwrap_or(0) as u32,
+    )
+}
+
+/// Step the engine through one specification behaviour (a list of action labels).
+/// A label that cannot be applied is recorded as `diverged`; the scenario then stops
+/// following the labels.  With `drain` the run is continued to its end afterwards: parked
+/// tasks oldest first, open interrupts answered with complete.
+pub async fn replay_scenario(
+    models: &[Value],
+    beh: &Value,
+    cfg: &Cfg,
+    workdir: &str,
+    drain: bool,
+) -> Vec<Value> {
+    let labels = beh["labels"].as_array().unwrap();
+    let first = &labels[0];
+    let mi = first["opt"]["mi"].as_u64().expect("first label must be StartCall") as usize;
+    let line = &models[mi - 1];
+    let input = first["opt"]["inp"].clone();
+    let name = line["name"].as_str().unwrap();
+    let model_text = line["model"].as_str().unwrap();
+    let mut w = World::new(cfg, workdir, "p", &line["spec"]).await;
+    let tree = engine_tree(model_text);
+    w.model_line(name, tree.clone(), &input, json!({"mi": mi, "beh": beh["id"]}));
+    if tree["ok"] != json!(true) {
+        return std::mem::take(&mut w.lines);
+    }
+    if let Err(e) = w.deploy(model_text) {
+        w.lines.push(json!({"ev": "note", "what": "deploy failed", "err": e}));
+        return std::mem::take(&mut w.lines);
+    }
+    let mid = line["spec"]["id"].as_str().unwrap().to_string();
+    let mut diverged = false;
+    for (i, l) in labels.iter().enumerate() {
+        let pid = l["pid"].as_str().unwrap_or("p1").to_string();
+        let ok = match l["a"].as_str().unwrap_or("") {
+            "StartCall" => w.start_call(&mid, &pid, &input).await,
+            "Launch" => w.launch(&pid).await,
+            "Exec" => w.exec_task(&pid, &key_of(&l["t"])).await,
+            "Act" => {
+                let kind = l["kind"].as_str().unwrap();
+                let opts = json!({"ecode": l["opt"]["ecode"], "to": l["opt"]["to"]});
+                w.act(&pid, &key_of(&l["t"]), kind, &opts).await;
+                true
+            }
+            other => {
+                w.lines.push(json!({"ev": "note", "what": "unknown label", "a": other}));
+                false
+            }
+        };
+        if !ok {
+            w.lines.push(json!({"ev": "note", "what": "diverged", "at": i + 1, "label": l}));
+            diverged = true;
+            break;
+        }
+    }
+    if drain && !diverged {
+        for _ in 0..200 {
+            let pids = w.pids.clone();
+            let mut moved = false;
+            for pid in &pids {
+                let parked = w.parked(pid);
+                if let Some(k) = parked.first() {
+                    w.exec_task(pid, k).await;
+                    moved = true;
+                    break;
+                }
+                let open: Vec<Key> = w
+                    .tasks(pid)
+                    .iter()
+                    .filter(|t| t.1 == "act" && t.2 == "interrupted")
+                    .map(|t| t.0.clone())
+                    .collect();
+                if let Some(k) = open.first() {
+                    w.act(pid, k, "complete", &json!({"ecode": "nil", "to": "nil"}))
+                        .await;
+                    moved = true;
+                    break;
+                }
+            }
+            if !moved {
+                break;
+            }
+        }
+    }
+    w.lines.push(json!({"ev": "end", "steps": w.steps}));
+    std::mem::take(&mut w.lines)
+}
+
+pub fn replay(args: &Args) -> i32 {
+    let models = read_ndjson(&args.str("models", ""));
+    let behs = read_ndjson(&args.str("behaviours", ""));
+    let mut out = Out::new(&args.str("out", "trace.ndjson"));
+    let flavour = args.str("rt", "ct");
+    let workdir = args.str("workdir", "/verif/.work/run");
+    let drain = args.get("drain").is_some();
+    let cfg = Cfg::default();
+    for beh in &behs {
+        let rt = runtime(&flavour);
+        let lines = rt.block_on(replay_scenario(&models, beh, &cfg, &workdir, drain));
+        rt.shutdown_background();
+        out.write(&lines);
+    }
+    out.flush();
+    eprintln!("replay: {} behaviours, {} lines", behs.len(), out.lines);
+    0
 }
 
 /// the engine's tree for every model of a family (C20, tree half)
